@@ -662,15 +662,15 @@ def c13_streams(ctx):
     return [s]
 
 PLANS["C13"] = dict(
-    modules=["Wx.Fs.C13"],
-    theorems=["Fw.c13_converges", "Fw.J_runWorker", "Fw.J_iteration", "Fw.J_applyCfg", "Fw.J_addHook", "Fw.J_init", "Fw.iteration_core", "Fw.f8a_witness", "Fw.f8b_witness"],
+    modules=["Wx.Fs.C13", "Wx.Fs.C13f"],
+    theorems=["Fw.iteration_faults", "Fw.others_are_registered", "Fw.errors_once_per_attempt", "Fw.failing_path_stays_out", "Fw.dropFold_errs", "Fw.c13_converges", "Fw.J_runWorker", "Fw.J_iteration", "Fw.J_applyCfg", "Fw.J_addHook", "Fw.J_init", "Fw.iteration_core", "Fw.f8a_witness", "Fw.f8b_witness"],
     bins=[("lib", ["wxfs"])],
     streams=c13_streams,
     sources=["crates/lib/src/sources/fs.rs", "crates/lib/src/config.rs", "crates/lib/src/changeable.rs"],
     rule="a case is one script of configuration changes; non-trivial = a watcher is created and something is unregistered or released; distinct by (script body, observation)",
     assumptions=["tokio Notify::notify_waiters wakes only an armed Notified (modelled); the recording watcher stands in for the notify back-ends (hook H2)",
                  "HashSet iteration order inside the worker is not modelled: call logs are compared sorted, and failing unwatch is not combined with mode flips in generated scripts"],
-    partial="convergence is proved for the fault-free case (no injected watch/unwatch failures); with failures the model is tied by correspondence only; the number of worker iterations is not bounded by a theorem",
+    partial="convergence is proved for the fault-free case; with failing registrations one iteration is characterised exactly (iteration_faults: every non-failing configured path registered, failing new ones left out and retried, one error per failing attempt); failing UNWATCH calls are tied by correspondence only; the number of worker iterations is not bounded by a theorem",
 )
 
 # ------------------------------------------------------------------------------------------------
@@ -688,6 +688,11 @@ def c15_streams(ctx):
         evs = ",".join(f"v{j}:{r.choice('ppreee' if i % 3 else 'eeeeep')}" for j in range(nev))
         behs = "".join(r.choice("iiiisr" + ("ec" if r.random() < 0.4 else "")) for _ in range(r.randint(0, 6))) or "-"
         cases.append(f"k{i} {cap} {behs} {evs}")
+    # F18's shape, many times over (the outcome is a race inside the runtime): a critical / elevated error raised by the handler while
+    # the action worker is blocked on the full error channel — the main task must end with THAT error, not with the worker's send failure
+    for i in range(240 if ctx["thorough"] else 120):
+        behs = r.choice(["irsic", "iic", "sc", "isse", "ic", "se", "iisc", "rsie"])
+        cases.append(f"x{i} 1 {behs} " + ",".join(f"v{j}:e" for j in range(r.randint(7, 10))))
     p = subprocess.run([str(core.TARGET / "wxerr")], input="\n".join(cases) + "\n", capture_output=True, text=True, timeout=3000)
     outs = p.stdout.splitlines()
     if p.returncode != 0 or len(outs) != len(cases): s.error = f"wxerr failed rc={p.returncode}: {p.stderr[-600:]}"; return [s]
@@ -719,7 +724,13 @@ def c15_streams(ctx):
             if sorted(names) != sorted(errs): what = f"errors raised {sorted(errs)} but handled {sorted(names)} although nothing was elevated"
             elif sorted(acts) != sorted(passes): what = f"accepted events {sorted(passes)} but delivered {sorted(acts)}: an error stopped event processing"
         elif len(set(acts)) != len(acts) or not set(acts) <= set(passes): what = f"delivered events {acts} are not a duplicate-free subset of the accepted ones {passes}"
-        if f["main"] == "running" and any(b in "ec" for b in (c.split(" ")[2][:len(handled)] if c.split(" ")[2] != "-" else "")): what = "the handler elevated / raised a critical error but the main task kept running"
+        behs_used = (c.split(" ")[2][:len(handled)] if c.split(" ")[2] != "-" else "")
+        if f["main"] == "running" and any(b in "ec" for b in behs_used): what = "the handler elevated / raised a critical error but the main task kept running"
+        # "the main task ends with THAT critical error": the first elevating / critical call decides (e -> Elevated, c -> the External one it raised)
+        first = next((b for b in behs_used if b in "ec"), None)
+        want_main = {"e": "err:Elevated", "c": "err:External"}.get(first)
+        if want_main and f["main"] != "running" and f["main"] != want_main:
+            what = f"the handler {'elevated the error' if first == 'e' else 'raised a critical error'}, but the main task ended with `{f['main']}` instead of that critical error"
         if what: s.oracle_failures.append((i, c, o, what))
         s.bump("main=" + f["main"]); s.bump("cap=" + c.split(" ")[1])
         if len(errs) >= 2: s.nontrivial.add(hashlib.md5((c.split(" ", 1)[1] + o).encode()).digest()[:8])
@@ -737,8 +748,8 @@ def c15_fs(ctx):
     return xs
 
 PLANS["C15"] = dict(
-    modules=["Wx.Err.C15"],
-    theorems=["Eh.c15_conserved", "Eh.hook_end", "Eh.ended_stops", "Eh.inv_step", "Eh.inv_init"],
+    modules=["Wx.Err.C15", "Wx.Fs.C13f"],
+    theorems=["Fw.errors_once_per_attempt", "Fw.others_are_registered", "Eh.c15_conserved", "Eh.hook_end", "Eh.ended_stops", "Eh.inv_step", "Eh.inv_init"],
     bins=[("lib", ["wxerr", "wxfs"])],
     streams=lambda ctx: c15_streams(ctx) + c15_fs(ctx),
     sources=["crates/lib/src/watchexec.rs", "crates/lib/src/action/worker.rs", "crates/lib/src/sources/fs.rs", "crates/lib/src/error/runtime.rs", "crates/lib/src/error/critical.rs"],
